@@ -125,6 +125,20 @@ func runScenario(t *testing.T, sc scenario) (events []ev) {
 			case "reply":
 				for i := range cond.Spec.LimitItemConfigurations {
 					it := &cond.Spec.LimitItemConfigurations[i]
+					if r.Err == "empty" { // the answer names the schema but carries NO limit at all
+						it.TokenBucket, it.MaxRequestsInflight = nil, nil
+						continue
+					}
+					if r.Err == "wrongtype" { // the answer carries a limit of the OTHER type
+						if sc.Type == "tb" {
+							it.MaxRequestsInflight = &proxyv1alpha1.MaxRequestsInflightFlowControlSchema{Max: r.Q}
+							it.TokenBucket = nil
+						} else {
+							it.TokenBucket = &proxyv1alpha1.TokenBucketFlowControlSchema{QPS: r.Q, Burst: r.B}
+							it.MaxRequestsInflight = nil
+						}
+						continue
+					}
 					if sc.Type == "tb" {
 						it.TokenBucket = &proxyv1alpha1.TokenBucketFlowControlSchema{QPS: r.Q, Burst: r.B}
 						it.MaxRequestsInflight = nil
@@ -167,6 +181,7 @@ func runScenario(t *testing.T, sc scenario) (events []ev) {
 		lim.ResetLimiter("remote")
 		lim.Sync(spec(sc))
 		start := time.Now()
+		var heldAcross []interface{ Release() }
 		for _, s := range sc.Steps {
 			switch s.K {
 			case "ready":
@@ -183,7 +198,7 @@ func runScenario(t *testing.T, sc scenario) (events []ev) {
 				mu.Lock()
 				reply = s
 				mu.Unlock()
-				events = append(events, ev{"k": s.K, "q": s.Q, "b": s.B})
+				events = append(events, ev{"k": s.K, "q": s.Q, "b": s.B, "kind": s.Err})
 			case "acq":
 				mu.Lock()
 				acq = s
@@ -198,8 +213,26 @@ func runScenario(t *testing.T, sc scenario) (events []ev) {
 				time.Sleep(time.Duration(s.Ms) * time.Millisecond)
 				synctest.Wait()
 				events = append(events, ev{"k": "sleep", "ms": s.Ms})
+			case "hold":
+				// Q more requests are admitted (as far as the limiter lets them) and STAY in flight across the following steps
+				n := 0
+				for i := int32(0); i < s.Q; i++ {
+					fc := lim.GetOrDefault("s")
+					if !fc.TryAcquire() {
+						break
+					}
+					heldAcross = append(heldAcross, fc)
+					n++
+				}
+				events = append(events, ev{"k": "hold", "want": s.Q, "got": n, "inflight": len(heldAcross)})
+			case "unhold":
+				for _, h := range heldAcross {
+					h.Release()
+				}
+				heldAcross = nil
+				events = append(events, ev{"k": "unhold"})
 			case "measure":
-				e := ev{"k": "measure", "t": time.Since(start).Milliseconds()}
+				e := ev{"k": "measure", "t": time.Since(start).Milliseconds(), "heldAcross": len(heldAcross)}
 				mu.Lock()
 				e["calls"] = calls
 				mu.Unlock()
